@@ -1185,7 +1185,64 @@ func (x *flPkg) litRoot(recv, name, tag string, pick func(fd *ast.FuncDecl) []*a
 	return r, lits[0]
 }
 
-// flAcceptLits: innermost literals that contain a postAccept call.
+// reachesCall: does the node call `name` directly, or through unexported same-package helpers (three levels)?
+func (x *flPkg) reachesCall(n ast.Node, name string, depth int, seen map[string]bool) bool {
+	hit := false
+	ast.Inspect(n, func(m ast.Node) bool {
+		if hit {
+			return false
+		}
+		c, ok := m.(*ast.CallExpr)
+		if !ok {
+			return true
+		}
+		cn := flCalleeName(c)
+		if cn == name {
+			hit = true
+			return false
+		}
+		if depth < 3 && cn != "" && !ast.IsExported(cn) && !seen[cn] {
+			seen[cn] = true
+			for _, h := range x.byName[cn] {
+				if x.reachesCall(h.Body, name, depth+1, seen) {
+					hit = true
+				}
+			}
+		}
+		return !hit
+	})
+	return hit
+}
+
+// acceptLits: innermost literals that reach a postAccept call (directly or through a helper).
+func (x *flPkg) acceptLits(fd *ast.FuncDecl) []*ast.FuncLit {
+	var all []*ast.FuncLit
+	ast.Inspect(fd.Body, func(n ast.Node) bool {
+		if l, ok := n.(*ast.FuncLit); ok {
+			all = append(all, l)
+		}
+		return true
+	})
+	has := func(l *ast.FuncLit) bool { return x.reachesCall(l.Body, "postAccept", 0, map[string]bool{}) }
+	var out []*ast.FuncLit
+	for _, l := range all {
+		if !has(l) {
+			continue
+		}
+		inner := false
+		for _, m := range all {
+			if m != l && m.Pos() >= l.Pos() && m.End() <= l.End() && has(m) {
+				inner = true
+			}
+		}
+		if !inner {
+			out = append(out, l)
+		}
+	}
+	return out
+}
+
+// flAcceptLits: innermost literals that contain a postAccept call (superseded by acceptLits).
 func flAcceptLits(fd *ast.FuncDecl) []*ast.FuncLit {
 	var all []*ast.FuncLit
 	ast.Inspect(fd.Body, func(n ast.Node) bool {
@@ -1265,7 +1322,7 @@ func (x *flPkg) standardRoots() []flRoot {
 	} {
 		rs = append(rs, x.methodRoot(m[0], m[1]))
 	}
-	acc, _ := x.litRoot("peer", "serveListener", "accept", flAcceptLits)
+	acc, _ := x.litRoot("peer", "serveListener", "accept", x.acceptLits)
 	rs = append(rs, acc)
 	red, redLit := x.litRoot("peer", "Dial", "redial", flRedialLits)
 	dial := x.methodRoot("peer", "Dial")
